@@ -1505,9 +1505,67 @@ fn cover_scale(profile: &str, p: &Pools, rng: &mut Rng, out: &mut Vec<String>, p
     let _ = p;
 }
 
+/// generic homogeneity sweep (hom_proj): operations of the machine, in their operand forms, with every compound argument
+/// scaled by each factor of the recorder's table; the degree is the model's claim (HomDegrees in ApiMisc.tla)
+fn cover_hom(profile: &str, p: &Pools, rng: &mut Rng, out: &mut Vec<String>, pid: &mut u64) {
+    // (op, forms, argument kinds, degree (0 = the dimension for det), dimensions)
+    type E = (&'static str, &'static [&'static str], &'static str, i64, &'static [usize]);
+    const F4A: &[&str] = &["vv", "rr", "as"];
+    const F4: &[&str] = &["vv", "rv", "vr", "rr"];
+    const F2A: &[&str] = &["vv", "as"];
+    const M: &[&str] = &["m"];
+    const D24: &[usize] = &[2, 3, 4];
+    const D14: &[usize] = &[1, 2, 3, 4];
+    const D13: &[usize] = &[1, 2, 3];
+    const D0: &[usize] = &[0];
+    let table: &[E] = match profile {
+        "C01" => &[("add", F4A, "MM", 1, D24), ("sub", F4A, "MM", 1, D24), ("neg", &["v", "r"], "M", 1, D24), ("mul_s", F2A, "MS", 1, D24), ("mul", F4, "MV", 2, D24),
+                   ("mul", F4, "MM", 2, D24), ("transpose", M, "M", 1, D24), ("transpose_self", M, "M", 1, D24), ("trace", M, "M", 1, D24), ("diagonal", M, "M", 1, D24),
+                   ("from_diagonal", M, "V", 1, D24), ("row", M, "MI", 1, D24), ("col", M, "MI", 1, D24), ("swap_rows", M, "MII", 1, D24), ("swap_cols", M, "MII", 1, D24)],
+        "C02" => &[("invert", M, "M", -1, D24), ("det", M, "M", 0, D24), ("transpose", M, "M", 1, D24)],
+        "C03" => &[("add", F4A, "VV", 1, D14), ("sub", F4A, "VV", 1, D14), ("neg", &["v"], "V", 1, D14), ("mul_s", F2A, "VS", 1, D14), ("div_s", F2A, "VS", 1, D14),
+                   ("dot", &["m", "free"], "VV", 2, D14), ("cross", M, "VV", 2, &[3]), ("perp_dot", M, "VV", 2, &[2]), ("mag2", M, "V", 2, D14), ("lerp", M, "VVS", 1, D14),
+                   ("mul_ew", &["m", "as"], "VV", 2, D14), ("add_ew", &["m", "as"], "VV", 1, D14), ("sum", M, "V", 1, D14), ("truncate", M, "V", 1, &[3, 4])],
+        "C04" => &[("add", F4A, "QQ", 1, D0), ("sub", F4A, "QQ", 1, D0), ("mul", F4, "QQ", 2, D0), ("mul_s", F2A, "QS", 1, D0), ("conjugate", M, "Q", 1, D0), ("dot", M, "QQ", 2, D0),
+                   ("mag2", M, "Q", 2, D0), ("rot_invert", M, "Q", -1, D0), ("neg", &["v", "r"], "Q", 1, D0)],
+        "C11" => &[("magnitude", M, "V", 1, D14), ("normalize", M, "V", 0, D14), ("distance", M, "VV", 1, &[2, 3]), ("distance2", M, "VV", 2, &[2, 3]), ("project_on", M, "VV", 1, &[2, 3, 4]),
+                   ("angle", M, "VV", 0, &[2, 3]), ("magnitude", M, "Q", 1, D0), ("normalize", M, "Q", 0, D0)],
+        "C12" => &[("add", F4A, "PV", 1, D13), ("sub", F4, "PP", 1, D13), ("sub", F4A, "PV", 1, D13), ("mul_s", F2A, "PS", 1, D13), ("to_vec", M, "P", 1, D13), ("from_vec", M, "V", 1, D13),
+                   ("midpoint", M, "PP", 1, D13), ("dot", M, "PV", 2, D13), ("distance2", M, "PP", 2, D13), ("from_homogeneous", M, "V", 0, &[4])],
+        "C14" => &[("lerp", M, "QQS", 1, D0), ("lerp", M, "VVS", 1, &[2, 3, 4]), ("nlerp", M, "QQS", 0, D0)],
+        _ => &[],
+    };
+    let small_t = |rng: &mut Rng| *rng.pick(&[q(1, 4), q(1, 2), q(2, 3), q(1, 3)]);
+    for (op, forms, spec, deg, dims) in table.iter() {
+        for &n in dims.iter() { for form in forms.iter() { for &kc in &[0i64, 1, 2, 4, 5, 6, 7, 8, 9, 10] {
+            // a negative factor flips what depends on the orientation: lengths and unit directions are excluded there
+            if kc == 10 && matches!(*op, "magnitude" | "normalize" | "distance" | "nlerp") { continue; }
+            let mut a: Vec<V> = vec![t(op), t(form), Val::I(kc), Val::I(if *op == "det" { n as i64 } else { *deg })];
+            for (i, ch) in spec.chars().enumerate() {
+                a.push(match ch {
+                    'M' => match n { 2 => Val::M2(loop { let m = Matrix2::from_cols(rv2(rng), rv2(rng)); if m.determinant().n != 0 { break m; } }),
+                                     3 => Val::M3(loop { let m = Matrix3::from_cols(rv3(rng), rv3(rng), rv3(rng)); if m.determinant().n != 0 { break m; } }),
+                                     _ => { let c = |rng: &mut Rng| Vector4::new(small(rng), small(rng), small(rng), small(rng));
+                                            Val::M4(loop { let m = Matrix4::from_cols(c(rng), c(rng), c(rng), c(rng)); if m.determinant().n != 0 { break m; } }) } },
+                    'V' => { let d = if *op == "mul" { n } else { n };
+                             match d { 1 => Val::V1(Vector1::new(small_nz(rng))), 2 => Val::V2(Vector2::new(small_nz(rng), small_nz(rng))),
+                                       3 => Val::V3(Vector3::new(small_nz(rng), small_nz(rng), small_nz(rng))), _ => Val::V4(Vector4::new(small_nz(rng), small_nz(rng), small_nz(rng), small_nz(rng))) } }
+                    'P' => match n { 1 => Val::P1(Point1::new(small_nz(rng))), 2 => Val::P2(Point2::new(small_nz(rng), small_nz(rng))), _ => Val::P3(Point3::new(small_nz(rng), small_nz(rng), small_nz(rng))) },
+                    'Q' => Val::Q(if *op == "nlerp" { uq(p, rng) } else { Quaternion::from_sv(small_nz(rng), Vector3::new(small_nz(rng), small_nz(rng), small_nz(rng))) }),
+                    'S' => vs(if *op == "lerp" || *op == "nlerp" { small_t(rng) } else { small_nz(rng) }),
+                    'I' => Val::I(if i == 1 { 0 } else { (n - 1) as i64 }),
+                    _ => Val::Nil,
+                });
+            }
+            if kc <= 5 { emit1s("hom_proj", a, F2, out, pid); } else { emit1("hom_proj", a, out, pid); }
+        } } }
+    }
+}
+
 /// systematic parts of the other native-arithmetic projections: every combination of their small tables
 fn cover_proj(profile: &str, p: &Pools, rng: &mut Rng, out: &mut Vec<String>, pid: &mut u64) {
     cover_scale(profile, p, rng, out, pid);
+    cover_hom(profile, p, rng, out, pid);
     match profile {
         "C15" => {
             for kind in ["quat", "basis3", "arc"] { for anti in [false, true] {
